@@ -296,7 +296,7 @@ TraceClean ==
                touched == p \in Changed(f0, f1)
                survivorsOrder0 == SelectSeq(p0.order, LAMBDA h : h \in e1)
                sorted0 == IsNaturallySorted([i \in DOMAIN p0.order |-> IdOfHeader(p0.order[i])])
-           IN  (IF ~IsFile(f1, p) THEN <<MM("clean.file.removed", "", "", "", p, "", "used")>> ELSE <<>>)
+           IN  (IF IsFile(f0, p) /\ ~IsFile(f1, p) THEN <<MM("clean.file.removed", "", "", "", p, "", "used")>> ELSE <<>>)
             \o SetToSeq({MM("clean.entry.removed", "", "", "", p, h,
                             IF IsAddr(p, h) THEN "addressed" ELSE IF Prot(h) THEN "protected"
                             ELSE IF ~del THEN "nodelete" ELSE "unlisted")
